@@ -321,13 +321,14 @@ theorem spl_Src.chunks {x : AnyBv} {J : Nat} (hx : spl_Src x J) :
   ⟨hx.bits, fun t ht => spl_wf_zero _ hx.wf t (by rw [spl_abs_len]; exact ht)⟩
 
 -- ---- the two stores ---------------------------------------------------------------------------------
-/-- `Bvf`: bytes through `get_int::<u8>` / `set_int::<u8>`; the invariant fixes the length -/
-theorem spl_sysF {w : Nat} (hc : Compat w 8) (L : Nat) :
+/-- `Bvf`: bytes through `get_int::<u8>` / `set_int::<u8>`; the invariant fixes length and capacity -/
+theorem spl_sysF {w : Nat} (hc : Compat w 8) (L N : Nat) :
     spl_Sys (J := 8) (fun (a : Raw w) i => bitAt a.data i) (fun a idx v => a.setInt 8 idx v)
-      (fun a idx => (a.getInt 8 idx).getD 0#8) (fun a => a.Inv ∧ a.length = L) L := by
-  refine ⟨fun a idx v h => ⟨Raw.setInt_inv a hc h.1 idx v, ?_⟩, fun a idx v i h => ?_, fun a idx j h => ?_⟩
-  · rw [Raw.setInt_length]; exact h.2
-  · rw [Raw.setInt_bits a hc h.1, h.2]
+      (fun a idx => (a.getInt 8 idx).getD 0#8) (fun a => a.Inv ∧ a.length = L ∧ a.data.size = N) L := by
+  refine ⟨fun a idx v h => ⟨Raw.setInt_inv a hc h.1 idx v, ?_, ?_⟩, fun a idx v i h => ?_, fun a idx j h => ?_⟩
+  · rw [Raw.setInt_length]; exact h.2.1
+  · rw [Raw.setInt_size]; exact h.2.2
+  · rw [Raw.setInt_bits a hc h.1, h.2.1]
     have e : (idx + 1) * 8 = idx * 8 + 8 := by omega
     rw [e]
   · exact Raw.getInt_getLsbD a hc h.1 idx j
@@ -391,5 +392,233 @@ theorem spl_finish_prepend {w : Nat} (hw : 0 < w) (s r : Raw w) (x : AnyBv) (hxw
       rw [Raw.abs_bit _ _ hw, hb]
       show _ = (BV.append x.abs s.abs).bit i
       rw [BV.append_bit _ _ hxwf, Raw.abs_bit _ _ hw, spl_abs_len]
+
+-- ---- `Bvd::append` ----------------------------------------------------------------------------------
+theorem spl_Bvd_resize (s : Raw 64) (h : s.Inv) (k : Nat) :
+    (Bvd.resize s (s.length + k) false).Inv ∧ (Bvd.resize s (s.length + k) false).length = s.length + k ∧
+    ∀ i, bitAt (Bvd.resize s (s.length + k) false).data i = bitAt s.data i := by
+  obtain ⟨h1, h2⟩ := Bvd.resize_refines s (s.length + k) false h
+  refine ⟨h1, ?_, fun i => ?_⟩
+  · have := congrArg BV.len h2
+    rw [BV.resize_len] at this
+    exact this
+  · rw [← Raw.abs_bit _ _ (by decide : 0 < 64), h2,
+      spl_resize_bit _ (Raw.Inv.wf h (by decide)) _ (by show s.length ≤ _; omega), Raw.abs_bit _ _ (by decide)]
+
+theorem spl_Bvd_append_eq (s : Raw 64) (x : AnyBv) :
+    Bvd.append s x =
+      ⟨spl_appendG (fun a idx v => a.setIfInBounds idx v) (fun a idx => wd a idx)
+          (fun i => (x.getInt 64 i).getD 0#64) (x.getInt 64 0) (s.length % 64) (s.length / 64) (x.intLen 64)
+          (Bvd.resize s (s.length + x.len) false).data,
+        (Bvd.resize s (s.length + x.len) false).length⟩ := by
+  unfold Bvd.append spl_appendG
+  simp only
+  split
+  · rfl
+  · cases x.getInt 64 0 <;> rfl
+
+theorem Bvd.append_bits (s : Raw 64) (x : AnyBv) (h : s.Inv) (hx : spl_Src x 64) :
+    (Bvd.append s x).length = s.length + x.len ∧
+    (Bvd.append s x).length ≤ (Bvd.append s x).data.size * 64 ∧
+    ∀ i, bitAt (Bvd.append s x).data i =
+      if i < s.length then bitAt s.data i else x.abs.bit (i - s.length) := by
+  rw [spl_Bvd_append_eq]
+  obtain ⟨r1, r2, r3⟩ := spl_Bvd_resize s h x.len
+  generalize Bvd.resize s (s.length + x.len) false = s1 at r1 r2 r3
+  have hlen : s.length / 64 * 64 + s.length % 64 = s.length := by omega
+  have hcap := r1.1
+  have core := spl_append_core (spl_sysD s1.data.size) hx.chunks (x.getInt 64 0) (s.length % 64)
+    (s.length / 64) (x.intLen 64) s1.data rfl (by omega)
+    (fun i hi => by rw [r3]; exact h.2 i (by omega)) (by omega)
+    (by unfold AnyBv.intLen; omega) hx.none0
+    (fun b hb => ⟨by rw [hb]; rfl, by
+      have : x.len ≠ 0 := fun h0 => by rw [spl_getInt_none x 64 h0] at hb; exact absurd hb (by simp)
+      unfold AnyBv.intLen; omega⟩)
+  obtain ⟨c1, c2⟩ := core
+  refine ⟨r2, ?_, fun i => ?_⟩
+  · show s1.length ≤ _ * 64
+    rw [c1]; exact hcap
+  · show bitAt (spl_appendG _ _ _ _ _ _ _ _) i = _
+    rw [c2, hlen, r3]
+
+theorem Bvd.append_refines (s : Raw 64) (x : AnyBv) (h : s.Inv) (hx : spl_Src x 64) :
+    (Bvd.append s x).Inv ∧ (Bvd.append s x).abs = s.abs.append x.abs := by
+  obtain ⟨h1, h2, h3⟩ := Bvd.append_bits s x h hx
+  exact spl_finish_append (by decide) s _ x h hx.wf h1 h2 h3
+
+-- ---- `Bvd::prepend` ---------------------------------------------------------------------------------
+theorem spl_modify_eq {w : Nat} (d : Array (BitVec w)) (k : Nat) (f : BitVec w → BitVec w) :
+    d.modify k f = d.setIfInBounds k (f (wd d k)) := by
+  apply Array.ext_getElem?
+  intro i
+  rw [Array.getElem?_modify, Array.getElem?_setIfInBounds]
+  unfold wd
+  by_cases hk : k = i
+  · subst hk
+    by_cases hs : k < d.size
+    · simp [hs, Array.getD_eq_getD_getElem?]
+    · simp [hs]
+  · simp [hk]
+
+/-- the shifted, resized vector into which `prepend` writes the prefix -/
+theorem spl_shl_bits {w : Nat} (hw : 0 < w) (s s1 : Raw w) (h : s.Inv) (k : Nat) (r1 : s1.Inv)
+    (r2 : s1.length = s.length + k) (r3 : ∀ i, bitAt s1.data i = bitAt s.data i) :
+    (s1.shlAssign k).Inv ∧ (s1.shlAssign k).length = s.length + k ∧
+    (s1.shlAssign k).data.size = s1.data.size ∧
+    ∀ i, bitAt (s1.shlAssign k).data i = if i < k then false else bitAt s.data (i - k) := by
+  refine ⟨(Raw.shlAssign_refines s1 hw r1 k).1, by rw [Raw.shlAssign_length, r2],
+    Raw.shlAssign_size s1 hw r1 k, fun i => ?_⟩
+  rw [Raw.shlAssign_bits s1 hw r1, r3, r2]
+  by_cases c : i < k
+  · have c' : ¬ (k ≤ i ∧ i < s.length + k) := by omega
+    simp [c, c']
+  · rw [if_neg c]
+    by_cases c' : k ≤ i ∧ i < s.length + k
+    · simp [c']
+    · rw [h.2 _ (by omega)]; simp
+
+theorem spl_Bvd_prepend_eq (s : Raw 64) (x : AnyBv) (hx0 : x.len ≠ 0) :
+    Bvd.prepend s x =
+      ⟨spl_prependG (fun a idx v => a.setIfInBounds idx v) (fun a idx => wd a idx)
+          (fun i => (x.getInt 64 i).getD 0#64) (x.intLen 64 - 1)
+          ((Bvd.resize s (s.length + x.len) false).shlAssign x.len).data,
+        ((Bvd.resize s (s.length + x.len) false).shlAssign x.len).length⟩ := by
+  unfold Bvd.prepend spl_prependG
+  rw [if_neg hx0]
+  simp only
+  rw [spl_modify_eq]
+
+theorem Bvd.prepend_bits (s : Raw 64) (x : AnyBv) (h : s.Inv) (hx : spl_Src x 64) :
+    (Bvd.prepend s x).length = s.length + x.len ∧
+    (Bvd.prepend s x).length ≤ (Bvd.prepend s x).data.size * 64 ∧
+    ∀ i, bitAt (Bvd.prepend s x).data i =
+      if i < x.len then x.abs.bit i else bitAt s.data (i - x.len) := by
+  by_cases hx0 : x.len = 0
+  · unfold Bvd.prepend
+    rw [if_pos hx0, hx0]
+    exact ⟨rfl, h.1, fun i => by rw [if_neg (by omega)]; rfl⟩
+  · rw [spl_Bvd_prepend_eq s x hx0]
+    obtain ⟨r1, r2, r3⟩ := spl_Bvd_resize s h x.len
+    generalize Bvd.resize s (s.length + x.len) false = s1 at r1 r2 r3
+    obtain ⟨t1, t2, t3, t4⟩ := spl_shl_bits (by decide) s s1 h x.len r1 r2 r3
+    generalize s1.shlAssign x.len = s2 at t1 t2 t3 t4
+    have hcap := t1.1
+    have core := spl_prepend_core (spl_sysD s2.data.size) hx.chunks (x.intLen 64 - 1) s2.data rfl
+      (by unfold AnyBv.intLen; omega) (by unfold AnyBv.intLen; omega) (by omega)
+      (fun i hi => by rw [t4, if_pos hi])
+    obtain ⟨c1, c2⟩ := core
+    refine ⟨t2, ?_, fun i => ?_⟩
+    · show s2.length ≤ _ * 64
+      rw [c1]; exact hcap
+    · show bitAt (spl_prependG _ _ _ _ _) i = _
+      rw [c2, t4]
+      by_cases c : i < x.len
+      · simp only [if_pos c]
+      · simp only [if_neg c]
+
+theorem Bvd.prepend_refines (s : Raw 64) (x : AnyBv) (h : s.Inv) (hx : spl_Src x 64) :
+    (Bvd.prepend s x).Inv ∧ (Bvd.prepend s x).abs = s.abs.prepend x.abs := by
+  obtain ⟨h1, h2, h3⟩ := Bvd.prepend_bits s x h hx
+  exact spl_finish_prepend (by decide) s _ x hx.wf h1 h2 h h3
+
+-- ---- `Bvf::append` ----------------------------------------------------------------------------------
+theorem spl_compat8 {w : Nat} (hw : 0 < w) (h8 : 8 ∣ w) : Compat w 8 := ⟨hw, by decide, Or.inl h8⟩
+
+theorem spl_Bvf_resize {w : Nat} (s : Raw w) (hw : 0 < w) (h : s.Inv) (k : Nat)
+    (hfit : s.length + k ≤ s.data.size * w) :
+    ∃ s1, Bvf.resize s (s.length + k) false = .ok s1 ∧ s1.Inv ∧ s1.length = s.length + k ∧
+      s1.data.size = s.data.size ∧ ∀ i, bitAt s1.data i = bitAt s.data i := by
+  obtain ⟨s1, e, h1, h2, h3⟩ := Bvf.resize_ok s (s.length + k) false hw h (Or.inl hfit)
+  refine ⟨s1, e, h1, ?_, h3, fun i => ?_⟩
+  · have := congrArg BV.len h2
+    rw [BV.resize_len] at this
+    exact this
+  · rw [← Raw.abs_bit _ _ hw, h2,
+      spl_resize_bit _ (Raw.Inv.wf h hw) _ (by show s.length ≤ _; omega), Raw.abs_bit _ _ hw]
+
+theorem spl_Bvf_append_eq {w : Nat} (s s1 : Raw w) (x : AnyBv)
+    (hr : Bvf.resize s (s.length + x.len) false = .ok s1) :
+    Bvf.append s x =
+      .ok (spl_appendG (fun a idx v => a.setInt 8 idx v) (fun a idx => (a.getInt 8 idx).getD 0#8)
+          (fun i => (x.getInt 8 i).getD 0#8) (x.getInt 8 0) (s.length % 8) (s.length / 8) (x.intLen 8) s1) := by
+  unfold Bvf.append spl_appendG
+  simp only [hr]
+  split
+  · rfl
+  · cases x.getInt 8 0 <;> rfl
+
+theorem Bvf.append_bits {w : Nat} (s : Raw w) (x : AnyBv) (hw : 0 < w) (h8 : 8 ∣ w) (h : s.Inv)
+    (hx : spl_Src x 8) (hfit : s.length + x.len ≤ s.data.size * w) :
+    ∃ r, Bvf.append s x = .ok r ∧ r.Inv ∧ r.length = s.length + x.len ∧ r.data.size = s.data.size ∧
+      ∀ i, bitAt r.data i = if i < s.length then bitAt s.data i else x.abs.bit (i - s.length) := by
+  obtain ⟨s1, e, r1, r2, r3, r4⟩ := spl_Bvf_resize s hw h x.len hfit
+  rw [spl_Bvf_append_eq s s1 x e]
+  have hlen : s.length / 8 * 8 + s.length % 8 = s.length := by omega
+  have core := spl_append_core (spl_sysF (spl_compat8 hw h8) (s.length + x.len) s.data.size) hx.chunks
+    (x.getInt 8 0) (s.length % 8) (s.length / 8) (x.intLen 8) s1 ⟨r1, r2, r3⟩ (by omega)
+    (fun i hi => by rw [r4]; exact h.2 i (by omega)) (by omega)
+    (by unfold AnyBv.intLen; omega) hx.none0
+    (fun b hb => ⟨by rw [hb]; rfl, by
+      have : x.len ≠ 0 := fun h0 => by rw [spl_getInt_none x 8 h0] at hb; exact absurd hb (by simp)
+      unfold AnyBv.intLen; omega⟩)
+  obtain ⟨⟨c1, c2, c3⟩, c4⟩ := core
+  refine ⟨_, rfl, c1, c2, c3, fun i => ?_⟩
+  rw [c4, hlen, r4]
+
+theorem Bvf.append_ok {w : Nat} (s : Raw w) (x : AnyBv) (hw : 0 < w) (h8 : 8 ∣ w) (h : s.Inv)
+    (hx : spl_Src x 8) (hfit : s.length + x.len ≤ s.data.size * w) :
+    ∃ r, Bvf.append s x = .ok r ∧ r.Inv ∧ r.abs = s.abs.append x.abs ∧ r.data.size = s.data.size := by
+  obtain ⟨r, e, h1, h2, h3, h4⟩ := Bvf.append_bits s x hw h8 h hx hfit
+  exact ⟨r, e, h1, (spl_finish_append hw s r x h hx.wf h2 h1.1 h4).2, h3⟩
+
+theorem Bvf.append_panic {w : Nat} (s : Raw w) (x : AnyBv)
+    (hover : s.data.size * w < s.length + x.len) (hx0 : 0 < x.len) : Bvf.append s x = .panic := by
+  unfold Bvf.append
+  simp only [Bvf.resize_panic s (s.length + x.len) false hover (by omega)]
+
+-- ---- `Bvf::prepend` ---------------------------------------------------------------------------------
+theorem spl_Bvf_prepend_eq {w : Nat} (s s1 : Raw w) (x : AnyBv) (hx0 : x.len ≠ 0)
+    (hr : Bvf.resize s (s.length + x.len) false = .ok s1) :
+    Bvf.prepend s x =
+      .ok (spl_prependG (fun a idx v => a.setInt 8 idx v) (fun a idx => (a.getInt 8 idx).getD 0#8)
+          (fun i => (x.getInt 8 i).getD 0#8) (x.intLen 8 - 1) (s1.shlAssign x.len)) := by
+  unfold Bvf.prepend spl_prependG
+  rw [if_neg hx0]
+  simp only [hr]
+
+theorem Bvf.prepend_bits {w : Nat} (s : Raw w) (x : AnyBv) (hw : 0 < w) (h8 : 8 ∣ w) (h : s.Inv)
+    (hx : spl_Src x 8) (hfit : s.length + x.len ≤ s.data.size * w) :
+    ∃ r, Bvf.prepend s x = .ok r ∧ r.Inv ∧ r.length = s.length + x.len ∧ r.data.size = s.data.size ∧
+      ∀ i, bitAt r.data i = if i < x.len then x.abs.bit i else bitAt s.data (i - x.len) := by
+  by_cases hx0 : x.len = 0
+  · unfold Bvf.prepend
+    rw [if_pos hx0, hx0]
+    exact ⟨s, rfl, h, rfl, rfl, fun i => by rw [if_neg (by omega)]; rfl⟩
+  · obtain ⟨s1, e, r1, r2, r3, r4⟩ := spl_Bvf_resize s hw h x.len hfit
+    rw [spl_Bvf_prepend_eq s s1 x hx0 e]
+    obtain ⟨t1, t2, t3, t4⟩ := spl_shl_bits hw s s1 h x.len r1 r2 r4
+    generalize s1.shlAssign x.len = s2 at t1 t2 t3 t4
+    have core := spl_prepend_core (spl_sysF (spl_compat8 hw h8) (s.length + x.len) s.data.size) hx.chunks
+      (x.intLen 8 - 1) s2 ⟨t1, t2, by rw [t3, r3]⟩
+      (by unfold AnyBv.intLen; omega) (by unfold AnyBv.intLen; omega) (by omega)
+      (fun i hi => by rw [t4, if_pos hi])
+    obtain ⟨⟨c1, c2, c3⟩, c4⟩ := core
+    refine ⟨_, rfl, c1, c2, c3, fun i => ?_⟩
+    rw [c4, t4]
+    by_cases c : i < x.len
+    · simp only [if_pos c]
+    · simp only [if_neg c]
+
+theorem Bvf.prepend_ok {w : Nat} (s : Raw w) (x : AnyBv) (hw : 0 < w) (h8 : 8 ∣ w) (h : s.Inv)
+    (hx : spl_Src x 8) (hfit : s.length + x.len ≤ s.data.size * w) :
+    ∃ r, Bvf.prepend s x = .ok r ∧ r.Inv ∧ r.abs = s.abs.prepend x.abs ∧ r.data.size = s.data.size := by
+  obtain ⟨r, e, h1, h2, h3, h4⟩ := Bvf.prepend_bits s x hw h8 h hx hfit
+  exact ⟨r, e, h1, (spl_finish_prepend hw s r x hx.wf h2 h1.1 h h4).2, h3⟩
+
+theorem Bvf.prepend_panic {w : Nat} (s : Raw w) (x : AnyBv)
+    (hover : s.data.size * w < s.length + x.len) (hx0 : 0 < x.len) : Bvf.prepend s x = .panic := by
+  unfold Bvf.prepend
+  rw [if_neg (by omega)]
+  simp only [Bvf.resize_panic s (s.length + x.len) false hover (by omega)]
 
 end Bva
